@@ -70,7 +70,12 @@ func installHook() {
 // hookHandler perturbs the schedule at the library's yield points and counts
 // events per site. It never blocks on anything but the clock, and no verdict
 // depends on what it does.
-func hookHandler(site, _ string) {
+func hookHandler(site, key string) {
+	if site == "incr.loop" {
+		spinStep(key)
+		return
+	}
+	spinProgress()
 	i := siteIndex(site)
 	n := hookCount[i].Add(1)
 	hookEvents.Add(1)
@@ -103,6 +108,61 @@ func hookHandler(site, _ string) {
 	}
 }
 
+// ---------------------------------------------------------------------------
+// step budget for the executor's internal loops (livelock criterion)
+// ---------------------------------------------------------------------------
+
+// The executor's own loops (cycle search and path reconstruction, diagnostics collection, eviction walk) carry the
+// hook site "incr.loop". On graphs of at most a few dozen queries each of them is bounded by a few hundred
+// iterations between two other hook sites of the same goroutine. A goroutine that passes loop sites spinBudget times
+// without reaching any other hook site is spinning: a logical step bound, not a clock. The goroutine is then parked
+// for good, so that the quiescence criterion reports the Run that waits for it as a hang, blocked in that loop.
+const spinBudget = 1 << 20
+
+type spinCtr struct{ n uint64 }
+
+var (
+	spinCtrs  sync.Map // goroutine id -> *spinCtr
+	spinMu    sync.Mutex
+	spinSites = map[string]int{}
+	spinSteps atomic.Uint64
+)
+
+func spinStep(key string) {
+	spinSteps.Add(1)
+	id := goid.Get()
+	v, ok := spinCtrs.Load(id)
+	if !ok {
+		v, _ = spinCtrs.LoadOrStore(id, &spinCtr{})
+	}
+	c := v.(*spinCtr)
+	c.n++ // only this goroutine touches its counter
+	if c.n > spinBudget {
+		spinMu.Lock()
+		spinSites[key]++
+		spinMu.Unlock()
+		select {} // park for good: the case is reported through the quiescence criterion
+	}
+}
+
+func spinProgress() {
+	if v, ok := spinCtrs.Load(goid.Get()); ok {
+		v.(*spinCtr).n = 0
+	}
+}
+
+// spinsSeen lists the loop sites at which a goroutine exceeded the step budget.
+func spinsSeen() []string {
+	spinMu.Lock()
+	defer spinMu.Unlock()
+	var out []string
+	for k, n := range spinSites {
+		out = append(out, fmt.Sprintf("%s x%d", k, n))
+	}
+	sort.Strings(out)
+	return out
+}
+
 // setPerturbation installs the perturbation parameters of the case that is
 // about to run on this worker. Several workers share the handler; the last
 // writer wins, which is fine: attribution is not needed for perturbation.
@@ -122,6 +182,8 @@ func setPerturbation(rng *vlib.RNG, focusSites []string) {
 // reportHooks writes the per-site counters to the evidence and returns the
 // sites of `required` that were never reached.
 func reportHooks(r *vlib.Run, required []string) (missing []string) {
+	r.Extra("executor_loop_iterations_counted_against_the_step_budget", spinSteps.Load())
+	r.Extra("loops_that_exceeded_the_step_budget", spinsSeen())
 	m := map[string]uint64{}
 	for i, s := range hookSiteNames {
 		if n := hookCount[i].Load(); n > 0 {
